@@ -2,7 +2,7 @@
 returns the event fields recorded at the call's return (error paths too).
 Drivers, the S2C replayer and --replay all go through these."""
 import common
-from abstraction import abstract, a_exc, a_frame
+from abstraction import abstract, a_exc, a_frame, as_int
 
 common.load_pamqp()
 from pamqp import decode, encode, exceptions, frame  # noqa: E402
@@ -19,7 +19,9 @@ def do_unmarshal(data):
         return {'r': 'budget'}, None
     if exc is not None:
         return a_exc(exc, UE), None
-    return {'r': 'ok', 'n': res[0], 'ch': res[1], 'f': a_frame(res[2])}, res[2]
+    if not (isinstance(res, tuple) and len(res) == 3):
+        return {'r': 'exc', 'type': 'BadResult:' + type(res).__name__, 'lib': False, 'site': 'frame.unmarshal'}, None
+    return {'r': 'ok', 'n': as_int(res[0]), 'ch': as_int(res[1]), 'f': a_frame(res[2])}, res[2]
 
 
 def encode_value(v, pos='top'):
@@ -27,7 +29,9 @@ def encode_value(v, pos='top'):
     pre = abstract(v)
     try:
         b = fn(v)
-        out = {'r': 'ok', 'b': list(b)}
+        out = _bytes_result(b)
+        if out['r'] != 'ok':
+            raise TypeError('encoder returned ' + type(b).__name__)
     except Exception as e:  # noqa
         return {'pos': pos, 'in': pre, 'out': a_exc(e), 'dec': {'r': 'skip'}, 'out2': {'r': 'skip'}, 'post': abstract(v)}
     out2 = _call(fn, v)
@@ -50,7 +54,9 @@ def roundtrip(f, ch):
     fin = a_frame(f)
     try:
         b = frame.marshal(f, ch)
-        out = {'r': 'ok', 'b': list(b)}
+        out = _bytes_result(b)
+        if out['r'] != 'ok':
+            raise TypeError('marshal returned ' + type(b).__name__)
     except Exception as e:  # noqa
         return {'in': fin, 'ch': ch if isinstance(ch, int) and abs(ch) < 2 ** 31 else -99, 'out': a_exc(e),
                 'un': {'r': 'skip'}, 're': {'r': 'skip'}, 'out2': {'r': 'skip'}, 'post': a_frame(f)}
@@ -66,9 +72,15 @@ def roundtrip(f, ch):
     return {'in': fin, 'ch': int(ch), 'out': out, 'un': un, 're': re_, 'out2': out2, 'post': post}
 
 
+def _bytes_result(r):
+    if isinstance(r, (bytes, bytearray, memoryview)):
+        return {'r': 'ok', 'b': list(bytes(r))}
+    return {'r': 'exc', 'type': 'BadResult:' + type(r).__name__, 'lib': False, 'site': ''}
+
+
 def _call(fn, *a):
     try:
-        return {'r': 'ok', 'b': list(fn(*a))}
+        return _bytes_result(fn(*a))
     except Exception as e:  # noqa
         return a_exc(e)
 
@@ -100,7 +112,7 @@ def encode_arg(ty, v):
     if out['r'] == 'ok':
         try:
             n, w = decode.by_type(bytes(out['b']), {'table': 'table'}.get(ty, ty))
-            dec = {'r': 'ok', 'n': n, 'v': abstract(w)}
+            dec = {'r': 'ok', 'n': as_int(n), 'v': abstract(w)}
         except Exception as e:  # noqa
             dec = a_exc(e)
     return {'ty': ty, 'in': abstract(v), 'out': out, 'dec': dec}
@@ -124,7 +136,10 @@ def unmarshal(data, budget=True, memory=False, extra=None):
         elif exc is not None:
             ev['out'] = a_exc(exc, UE)
         else:
-            ev['out'] = {'r': 'ok', 'n': res[0], 'ch': res[1], 'f': a_frame(res[2])}
+            if isinstance(res, tuple) and len(res) == 3:
+                ev['out'] = {'r': 'ok', 'n': as_int(res[0]), 'ch': as_int(res[1]), 'f': a_frame(res[2])}
+            else:
+                ev['out'] = {'r': 'exc', 'type': 'BadResult:' + type(res).__name__, 'lib': False, 'site': 'frame.unmarshal'}
     else:
         ev['out'], _ = do_unmarshal(data)
     if extra:
@@ -168,7 +183,8 @@ def decode_value(data, pos='top'):
     elif exc is not None:
         out = a_exc(exc, UE)
     else:
-        out = {'r': 'ok', 'n': res[0], 'v': abstract(res[1])}
+        out = {'r': 'ok', 'n': as_int(res[0]), 'v': abstract(res[1])} if isinstance(res, tuple) and len(res) == 2 else \
+            {'r': 'exc', 'type': 'BadResult', 'lib': False, 'site': ''}
     return {'pos': pos, 'b': list(data), 'out': out, 'steps': steps}
 
 
@@ -234,7 +250,7 @@ def observe(o):
         d = dict(o)
         ev['dict_names'] = list(d.keys())
         ev['dict_vals'] = [abstract(x) for x in d.values()]
-        ev['len'] = len(o)
+        ev['len'] = as_int(len(o))
         ev['contains'] = [bool(n in o) for n in names]
         probes = ['', 'nope', 'name', 'index', '__slots__', 'validate', '_' + (names[0] if names else 'x')]
         for n in names:          # near misses of every real name
